@@ -1,7 +1,12 @@
 #!/bin/bash
-# usage: seed_run.sh <mutation dir> <PID> [tier]  -- applies the patch to /repo, runs the check, reverts
+# usage: seed_run.sh <mutation dir> <PID> [tier]
+# Runs the check against a scratch copy of /repo with the patch applied, from a scratch copy of /verif (so that concurrent work on
+# /verif and /repo is not disturbed). Equivalent to: git -C /repo apply patch.diff; ./check PID; git -C /repo checkout -- .
 M=$1; P=$2; T=${3:-quick}
-cd /verif
-git -C /repo apply $M/patch.diff || { echo "PATCH DOES NOT APPLY to /repo"; exit 3; }
-./check $P --tier $T 2>/dev/null | grep -E "VIOLATION|KNOWN|^C[0-9]+:" | cut -c1-250
-git -C /repo checkout -- . ; git -C /repo status --short | head -3
+S=/var/tmp/vseed
+mkdir -p $S
+rsync -a --delete --exclude .git /verif/ $S/verif/
+rsync -a --delete --exclude .git /repo/ $S/repo/
+( cd $S/repo && git apply $M/patch.diff ) || { echo "PATCH DOES NOT APPLY"; exit 3; }
+cd $S/verif && VERIF_REPO=$S/repo ./check $P --tier $T 2>/dev/null | grep -E "VIOLATION|KNOWN|^C[0-9]+:" | cut -c1-250
+rm -rf $S/repo
